@@ -46,8 +46,11 @@ func processInit() {
 		time.Sleep(20 * time.Millisecond)
 		erpc.SetLoggerOutputter(nopOutputter{})
 		erpc.SetLoggerLevel("OFF")
+		// NewPeer prints the process id once per process (sync.Once): do it now, so that it never costs a run two
+		// extra scheduler steps depending on whether an earlier run of the process created a peer
+		erpc.NewPeer(erpc.PeerConfig{}).Close()
 		erpc.VerifSetSpawn(func(fn func()) bool {
-			simrt.GoNamed("erpc-go", fn)
+			simrt.GoNamed(simrt.SystemTaskName, fn)
 			return true
 		})
 		erpc.VerifSetDial(func(d *erpc.Dialer, addr string) (net.Conn, error) {
